@@ -488,6 +488,7 @@ def check_case(col, inp, L, R, lp, rp, inidir, status_check="fast"):
     _, ents, differ = res
     modes = {"arrays": arrays, "aoh": aoh, "aoh_key": aoh_key}
     fails = spec.diff_truth(ents, lp, rp, modes)
+    positional = spec.positional(modes)
 
     # ---- verdicts that hinge on a reading the documentation leaves open
     if fails and (spec.has_mixed_list(lp) or spec.has_mixed_list(rp)):
@@ -537,8 +538,8 @@ def check_case(col, inp, L, R, lp, rp, inidir, status_check="fast"):
     # ---- group the failed clauses by cause
     by_key = {}
     if fails:
-        loose_docs = spec.data_equal(lp, rp, arrays, aoh, aoh_key, scalars="loose") \
-            and not spec.data_equal(lp, rp, arrays, aoh, aoh_key)
+        loose_docs = any(spec.data_equal(lp, rp, arrays, aoh, aoh_key, scalars="loose", mixed=m)
+                         and not spec.data_equal(lp, rp, arrays, aoh, aoh_key, mixed=m) for m in ("aoh", "array"))
         idkey_issues = None
         crosstalk = frozenset()
         if arrays == "value" and aoh in ("position", "dpos"):
@@ -551,24 +552,46 @@ def check_case(col, inp, L, R, lp, rp, inidir, status_check="fast"):
             if group == "path":
                 by_key.setdefault("C06/unparseable-entry-path", []).append(f)
                 continue
-            P, side = f["path"], f.get("side")
             # a clause that fails under the value-synchronised reading as well is located under that
             # reading (it is what was compared); labels only, the verdict stands as computed above
             laoh = "value" if (arrays == "value" and aoh in ("position", "dpos") and f["clause"] not in crosstalk) else aoh
+            # where to look: the failing path; below a synchronised sequence an entry's index may be
+            # either side's, and index-free accounting cannot tell like leaves apart: try the
+            # alternatives until one matches a named cause
+            side = f.get("side")
             if f["clause"] == "differ-no-entry":
                 d = first_difference(lp, rp, arrays, laoh, aoh_key, skip_loose=True) \
                     or first_difference(lp, rp, arrays, laoh, aoh_key)
                 if d is None:
                     raise RuntimeError("harness: documents differ but no difference found: %r" % (inp,))
-                P, side = d
-            chain, child_equal = locus(P, lp, rp, arrays, laoh, aoh_key, side)
-            ctx = {"loose_equal_docs": loose_docs, "arrays": arrays, "aoh": laoh, "child_equal": child_equal,
-                   "crosstalk_clauses": crosstalk}
-            name = _named_cause(group, chain, f, ctx)
+                tries = [d]
+            else:
+                paths = [f["path"]] + [c for c in f.get("candidates", ()) if c != f["path"]][:8]
+                if side is None and f.get("entry") is not None:
+                    act = ents[f["entry"]][0]
+                    sides = {"ADD": ("right", "left"), "DELETE": ("left", "right")}.get(act, ("left", "right"))
+                elif side is None:
+                    sides = ("left", "right")
+                else:
+                    sides = (side,) if positional else (side, "right" if side == "left" else "left")
+                tries = [(P, sd) for P in paths for sd in sides]
+            name = chain = None
+            for (P, sd) in tries:
+                ch, child_equal = locus(P, lp, rp, arrays, laoh, aoh_key, sd)
+                ctx = {"loose_equal_docs": loose_docs, "arrays": arrays, "aoh": laoh, "child_equal": child_equal,
+                       "crosstalk_clauses": crosstalk}
+                nm = _named_cause(group, ch, f, ctx)
+                if chain is None:
+                    chain = ch
+                if nm is not None:
+                    name, chain = nm, ch
+                    break
             if name is None and aoh in ("key", "deep") and group in ("iff",):
                 if idkey_issues is None:
                     idkey_issues = spec.identity_key_issues(lp, rp, aoh_key)
-                if idkey_issues:
+                if "bool-int" in idkey_issues:
+                    name = "bool-int-conflated"
+                elif idkey_issues:
                     what = "+".join(sorted(idkey_issues))
                     if f["clause"] == "equal-but-entry" and f.get("identical"):
                         name = "key-sync-reflexivity-record-without-identity-field" if "missing" in idkey_issues \
